@@ -6,7 +6,8 @@
                                     counterparts with their identity checks, addIn / delIn (only their
                                     effect on the slots and on the "pipeline", see `Grp.hook`)
     pkg/logic/group__.go            hasInSession, inSessionUniqueKey, KickSession, Dispose, IsInactive, Tick
-    pkg/logic/group__relay_pull.go  StartPull / StopPull / pullIfNeeded / shouldStartPull / stopPull / kickPull
+    pkg/logic/group__relay_pull.go  StartPull / StopPull / pullIfNeeded / shouldStartPull / stopPull / kickPull /
+                                    isPullSessionConnecting / isPullSessionWanted
     pkg/logic/group__out_sub.go     AddRtmpSubSession / HandleNewRtspSubSessionDescribe / …Play / Del…
     pkg/logic/server_manager__.go   OnNew…/OnDel… callbacks, the notification log
     pkg/logic/server_manager__api.go CtrlStartRtpPub / CtrlKickSession / CtrlStartRelayPull / CtrlStopRelayPull,
@@ -44,10 +45,15 @@ structure Code where
   custDispose : Bool
   /-- a relay-pull session's media is forwarded only while it is the attached pull session -/
   pullSrcCheck : Bool
+  /-- the group remembers the attempt that is still connecting (`pullProxy.pullingSessionUk`):
+      `stopPull` / `kickPull` cancel it (and report it), `AddRtmpPullSession / AddRtspPullSession` refuse
+      a session that is not the wanted one (the C17 repair "relay pull stop and kick also cancel an attempt
+      that is still connecting") -/
+  pullWanted : Bool
 deriving DecidableEq, Repr
 
-def Code.pinned : Code := ⟨false, false, false, false, false, false, false⟩
-def Code.fixed : Code := ⟨true, true, true, true, true, true, true⟩
+def Code.pinned : Code := ⟨false, false, false, false, false, false, false, false⟩
+def Code.fixed : Code := ⟨true, true, true, true, true, true, true, true⟩
 
 /-! ## the group -/
 
@@ -60,6 +66,11 @@ structure Grp where
   pullRtmp : Option Sid := none        -- pullProxy.rtmpSession
   pullRtsp : Option Sid := none        -- pullProxy.rtspSession
   pulling : Bool := false              -- pullProxy.isSessionPulling
+  /-- `pullProxy.pullingSessionUk` (`none` = ""): the attempt `pullIfNeeded` started last, until `stopPull`
+      forgets it while it is still connecting. Nothing else resets it (not `resetRelayPullSession`, not
+      `delPullSession`, not the attach). In the pinned tree the field does not exist; the model writes it
+      there too and never reads it (`Code.pullWanted`). -/
+  pullingUk : Option Sid := none
   apiEnable : Bool := false            -- pullProxy.apiEnable (static relay pull is off)
   pullIsRtsp : Bool := false           -- !strings.HasPrefix(pullProxy.pullUrl, "rtmp")
   retryNum : Option Nat := none        -- pullProxy.pullRetryNum (none = negative = retry for ever)
@@ -124,8 +135,24 @@ def shouldStartPull (g : Grp) : Bool :=
 /-- `pullIfNeeded`; `nid` is the identity the new pull session gets if one is created -/
 def pullIfNeeded (g : Grp) (nid : Sid) : Grp × Option Sid × List GObs :=
   if g.shouldStartPull then
-    ({ g with pulling := true, startCount := g.startCount + 1 }, some nid, [.spawn nid g.pullIsRtsp])
+    ({ g with pulling := true, startCount := g.startCount + 1, pullingUk := some nid }, some nid, [.spawn nid g.pullIsRtsp])
   else (g, none, [])
+
+/-- `isPullSessionConnecting`: an attempt was started, has not attached, and was not told to stop -/
+def isConnecting (g : Grp) : Bool := g.pulling && !g.hasPull && g.pullingUk.isSome
+
+/-- `isPullSessionWanted` -/
+def isWanted (g : Grp) (x : Sid) : Bool := g.pulling && g.pullingUk = some x
+
+/-- why `AddRtmpPullSession / AddRtspPullSession` refuse: `base.ErrDupInStream`, `errRelayPullStopped` -/
+inductive PullErr | dup | stopped
+deriving DecidableEq, Repr
+
+/-- the two guards of `AddRtmpPullSession / AddRtspPullSession`, in the order of the Go -/
+def pullRefusal (code : Code) (g : Grp) (x : Sid) : Option PullErr :=
+  if g.hasIn then some .dup
+  else if code.pullWanted && !g.isWanted x then some .stopped
+  else none
 
 /-! ### arrivals -/
 
@@ -146,12 +173,12 @@ def startRtpPub (code : Code) (g : Grp) (x : Sid) : Grp × Bool × List GObs :=
   if code.rtpPubCheck && g.hasIn then (g, false, [])
   else let r := addIn { g with psPub := some x }; ({ r.1 with avRemux := true }, true, r.2)
 
-def addRtmpPull (g : Grp) (x : Sid) : Grp × Bool × List GObs :=
-  if g.hasIn then (g, false, [])
+def addRtmpPull (code : Code) (g : Grp) (x : Sid) : Grp × Bool × List GObs :=
+  if (g.pullRefusal code x).isSome then (g, false, [])
   else let r := addIn { g with pullRtmp := some x }; (r.1, true, r.2 ++ [.relayStart x])
 
-def addRtspPull (g : Grp) (x : Sid) : Grp × Bool × List GObs :=
-  if g.hasIn then (g, false, [])
+def addRtspPull (code : Code) (g : Grp) (x : Sid) : Grp × Bool × List GObs :=
+  if (g.pullRefusal code x).isSome then (g, false, [])
   else let r := addIn { g with pullRtsp := some x }; ({ r.1 with avRemux := true }, true, r.2 ++ [.relayStart x])
 
 /-! ### departures -/
@@ -203,29 +230,33 @@ def delRtspSub (g : Grp) (x : Sid) : Grp := { g with rtspSubs := g.rtspSubs.filt
 def startPull (g : Grp) (rtsp : Bool) (retry : Option Nat) (nid : Sid) : Grp × Option Sid × List GObs :=
   pullIfNeeded { g with apiEnable := true, pullIsRtsp := rtsp, retryNum := retry } nid
 
-/-- `stopPull` -/
-def stopPull' (g : Grp) : Grp × Option Sid × List GObs :=
+/-- `stopPull`: the attached pull session is disposed (it leaves through its own goroutine's
+    `Del…PullSession`); an attempt that is still connecting cannot be closed from here, it is forgotten
+    (so that its attach will be refused) and reported as the stopped session -/
+def stopPull' (code : Code) (g : Grp) : Grp × Option Sid × List GObs :=
   let g := { g with startCount := 0 }
   match g.pullRtmp with
   | some x => (g, some x, [.dispose x])
   | none => match g.pullRtsp with
     | some x => (g, some x, [.dispose x])
-    | none => (g, none, [])
+    | none =>
+      if code.pullWanted && g.isConnecting then ({ g with pullingUk := none }, g.pullingUk, [])
+      else (g, none, [])
 
 /-- `StopPull` -/
-def stopPull (g : Grp) : Grp × Option Sid × List GObs := stopPull' { g with apiEnable := false }
+def stopPull (code : Code) (g : Grp) : Grp × Option Sid × List GObs := stopPull' code { g with apiEnable := false }
 
 /-- the session-id prefix `KickSession` dispatches on -/
 inductive KKind | rtmp | pull | rtspPub | psPub | rtspSub | other
 deriving DecidableEq, Repr
 
-/-- `KickSession` -/
-def kick (g : Grp) (k : KKind) (x : Sid) : Grp × Bool × List GObs :=
+/-- `KickSession` (`.pull` is `kickPull`) -/
+def kick (code : Code) (g : Grp) (k : KKind) (x : Sid) : Grp × Bool × List GObs :=
   match k with
   | .rtmp => if g.rtmpPub = some x || g.rtmpSubs.contains x then (g, true, [.dispose x]) else (g, false, [])
   | .pull =>
-    if g.pullRtmp = some x || g.pullRtsp = some x then
-      let r := stopPull' { g with apiEnable := false }
+    if g.pullRtmp = some x || g.pullRtsp = some x || (code.pullWanted && g.isConnecting && g.pullingUk = some x) then
+      let r := stopPull' code { g with apiEnable := false }
       (r.1, true, r.2.2)
     else (g, false, [])
   | .rtspPub => if g.rtspPub = some x then (g, true, [.dispose x]) else (g, false, [])
